@@ -424,3 +424,4 @@ def cases(tier, seed):
 BOUNDS = dict(products="17 structured operators incl. Kronecker with 2-4 (also rectangular) factors, KronSum, BlockDiag with multiplicities, their sums / products with Diagonal, "
               "Identity and ScalarMul; all factor sizes and column counts >= 1 (symbolic)", selection="12 entry points x structured kinds x annotation options x real / complex x admissible "
               "algorithms, omitted and explicit", audit="Kronecker(2x2, 3x3), BlockDiag(2x2 ^2, 3x3), KronSum, Kronecker @ Diagonal at concrete sizes with symbolic payloads")
+BOUNDS["added"] = 'isqrt / log / pow(0.5) / trace(Auto) audits; peak memory of a product with a 96-term Sum / 96-factor Product compared with 4 terms'
